@@ -461,6 +461,7 @@ func (c *caseRun) upsert(items []item, batch bool, qs *querySpec) error {
 		// it is judged by the direct oracle and left out of the replayed program
 		c.s.Hit("rejected_batch_not_replayed")
 		c.failUpsert(res)
+		c.abandon = true // see below: what the rejected commit left in the process cache is not modelled
 		return nil
 	}
 	for _, it := range items {
@@ -1162,6 +1163,7 @@ func run(o hx.RunOpts) error {
 		}
 	}
 	s.Rep.Notes = notes
+	s.Rep.Extra = map[string]any{"directed_cases_outside_usage_rules": notes}
 	s.Rep.CoverageGap = []string{
 		"ids inside one UpsertBatch are distinct (the intermediate centroid of a repeated id is not observable)",
 		"de-duplication is fixed per case; with it off only fresh ids are upserted (documented rule) apart from one directed case",
